@@ -90,8 +90,10 @@ def run_case(tape, tier):
     actions = []
     raised = []
 
-    with netlab.Lab(tape, res, tls=tls, bs=bs, rates=rates, wirelog=False) as lab:
+    wirelog = tape.flag("wirelog_attached", 1, 3)      # a wire log (debugging aid) attached to server and clients
+    with netlab.Lab(tape, res, tls=tls, bs=bs, rates=rates, wirelog=wirelog) as lab:
         net = lab.net
+        net.strict_peername = True
         net.injected = []
         orig_after = netmod.FakeSocket._after_injected_errno
         lab.make_server()
